@@ -192,9 +192,10 @@ class App(dict):
 
 class Sim:
     def __init__(self, *, n_tokens=2, users=('u1', 'u2'), seed_draws=None, worker_cores=16, start_ms=1_700_000_000_000,
-                 buffered_insert_select=False):
+                 buffered_insert_select=False, pool_par=8):
         self.m = boot()
-        self.cfg = dict(n_tokens=n_tokens, users=list(users), worker_cores=worker_cores, buffered_insert_select=buffered_insert_select)
+        self.cfg = dict(n_tokens=n_tokens, users=list(users), worker_cores=worker_cores, buffered_insert_select=buffered_insert_select,
+                        pool_par=pool_par)
         self._now = start_ms
         self.draws = list(seed_draws or [])
         self._draw_i = 0
@@ -292,7 +293,7 @@ class Sim:
                                                                        deduped_resource_id=r['deduped_resource_id'])
         app['resource_name_to_id'] = resource_name_to_id
         self.resource_names = sorted(resource_name_to_id)
-        app['async_worker_pool'] = m.hu.AsyncWorkerPool(parallelism=8, queue_size=64)
+        app['async_worker_pool'] = m.hu.AsyncWorkerPool(parallelism=self.cfg.get('pool_par', 8), queue_size=64)   # 1 = a saturated shared pool
         secret = types.SimpleNamespace(data={'key.json': 'e30=', 'token': 'dG9r', 'ca.crt': 'Y2E='})
         app['k8s_cache'] = types.SimpleNamespace(
             read_secret=self._read_secret(secret),
